@@ -334,7 +334,8 @@ int parse_directives(AsmContext *asm_context)
       return -1;
     }
 
-    return 0;
+    // Ends the assemble() call of the branch that is being assembled.
+    return 5;
   }
     else
   if (strcmp(token, "else") == 0)
